@@ -72,7 +72,9 @@ func genC35(t *rapid.T) c35Case {
 	return c
 }
 
-func c35Addr(m c35Member) (string, uint16) { return fmt.Sprintf("10.1.0.%d", m.IP), uint16(7946 + m.Port) }
+func c35Addr(m c35Member) (string, uint16) {
+	return fmt.Sprintf("10.1.0.%d", m.IP), uint16(7946 + m.Port)
+}
 
 func bodyC35(c c35Case, x *vkit.Ctx) {
 	// ------------------------------------------------------------ part A
